@@ -85,10 +85,9 @@ def account(st, tag, cps, it, idg):
             st.diag_codes[c] = st.diag_codes.get(c, 0) + 1
 
 
-def compare(res, st, tag, cases, impl, model, sample_every, findings, seen_known):
+def compare(res, st, tag, cases, impl, model, sample_every, findings, seen_known, pending):
     sampled = []
     n = 0
-    nviol = 0
     with open(cases) as fc, open(impl) as fi, open(model) as fm:
         for c, i, m in zip(fc, fi, fm):
             n += 1
@@ -122,21 +121,22 @@ def compare(res, st, tag, cases, impl, model, sample_every, findings, seen_known
                 else:
                     bad = "token position/lexeme property violated by the implementation: " + io[:300]
             if bad:
-                nviol += 1
-                if nviol <= 6:
-                    res.violation(bad, {"kind": kind, "case": c, "text": printable(cps), "impl_tokens": it,
-                                        "impl_diagnostics": idg, "oracle": io, "model_tokens": mt,
-                                        "model_diagnostics": mdg,
-                                        "replay_cmd": "./check C11 --replay <this file>"})
+                if len(pending["input"]) < 6:
+                    pending["input"].append((bad, {"kind": kind, "case": c, "text": printable(cps), "impl_tokens": it,
+                                                   "impl_diagnostics": idg, "oracle": io, "model_tokens": mt,
+                                                   "model_diagnostics": mdg,
+                                                   "replay_cmd": "./check C11 --replay <this file>"}))
+                pending["n_input"] += 1
             elif (it, idg) != (mt, mdg) and not io.startswith(("HANG", "PANIC")):
-                nviol += 1
-                if nviol <= 6:
-                    res.violation("correspondence broken: tokens/diagnostics of the implementation differ from the Coq model "
-                                  "RH.Lex.LangLexer.lex_all although the position oracle is satisfied",
-                                  {"kind": "correspondence", "correspondence": "TokenStream::new vs RH.Lex.LangLexer.lex_all",
-                                   "case": c, "text": printable(cps), "impl_tokens": it, "impl_diagnostics": idg,
-                                   "model_tokens": mt, "model_diagnostics": mdg,
-                                   "replay_cmd": "./check C11 --replay <this file>"}, no_failing_input=True)
+                if len(pending["corr"]) < 4:
+                    pending["corr"].append((
+                        "correspondence broken: tokens/diagnostics of the implementation differ from the Coq model "
+                        "RH.Lex.LangLexer.lex_all although the position oracle is satisfied",
+                        {"kind": "correspondence", "correspondence": "TokenStream::new vs RH.Lex.LangLexer.lex_all",
+                         "case": c, "text": printable(cps), "impl_tokens": it, "impl_diagnostics": idg,
+                         "model_tokens": mt, "model_diagnostics": mdg,
+                         "replay_cmd": "./check C11 --replay <this file>"}))
+                pending["n_corr"] += 1
     res.coverage.setdefault("streams", {})[tag] = n
     return sampled
 
@@ -153,7 +153,7 @@ def coq_cross_check(res, sampled):
            "From RH Require Import Text.Contents Text.Reader Lex.LangLexer.\nOpen Scope N_scope.\n"
            "Definition nsb (x y : list N) : bool := if list_eq_dec N.eq_dec x y then true else false.\n"
            "Definition cases : list (bool * list N * list N) := [\n" + ";\n".join(items) + "].\n")
-    body = ("forallb (fun c => match c with (l, s, exp) => "
+    body = ("forallb (fun c : bool * list N * list N => match c with (l, s, exp) => "
             "nsb (flat_outcome (if l then lex_latin1_file s else lex_all s)) exp end) cases")
     v, log = coq_eval_bool(PROP, "sample", pre, body)
     res.coverage["in_coq_vm_compute_cases"] = len(items)
@@ -189,6 +189,8 @@ def main(tier, replay=None):
 
     findings = open_findings()
     seen_known = {}
+    # violations are reported at the end: inputs that violate the property first, then pure model/code differences
+    pending = {"input": [], "corr": [], "n_input": 0, "n_corr": 0}
     st = Stats()
 
     def stream(tag, mode, n, sample_every):
@@ -222,7 +224,7 @@ def main(tier, replay=None):
         if p.returncode != 0:
             res.violation("extracted model runner failed", {"kind": "build"}, no_failing_input=True)
             return []
-        return compare(res, st, tag, cases, impl, model, sample_every, findings, seen_known)
+        return compare(res, st, tag, cases, impl, model, sample_every, findings, seen_known, pending)
 
     sampled = []
     if replay:
@@ -238,6 +240,12 @@ def main(tier, replay=None):
                           4001 if tier == "thorough" else 301)
         sampled += stream("random", "random", 1000000 if tier == "thorough" else 20000,
                           5003 if tier == "thorough" else 211)
+    for what, obj in pending["input"]:
+        res.violation(what, obj)
+    for what, obj in pending["corr"]:
+        res.violation(what, obj, no_failing_input=True)
+    res.coverage["property_violating_inputs"] = pending["n_input"]
+    res.coverage["correspondence_differences"] = pending["n_corr"]
     coq_cross_check(res, sampled[:260])
 
     for fid, cnt in seen_known.items():
